@@ -345,6 +345,10 @@ def plan(tier):
                 items.append((c, 1, None))
         for c in cfgs(three, ("report+ok", "ok", "report-in-ok"), ("Q",), (None, "start"), (False, True), False):
             items.append((c, 2, 20000))
+        # a statement with non-ASCII text (the builder hands comments to direct writers as UTF-8 like to any other writer)
+        for behs in (("ok", "report+ok"), ("status+ok", "error")):
+            for c in cfgs(["; café ü ∅", "M114"], behs, ("Q", "L"), (None,), (False, True), True):
+                items.append((c, 0, None))
         # socket writer (device with flow control): same contract
         for behs in (("ok", "report+ok"), ("error", "report-in-ok"), ("status+ok", "loss"), ("Error+ok", "ok")):
             for c in cfgs(two, behs, ("Q", "L"), (None,), (False, True), True):
@@ -377,6 +381,11 @@ def plan(tier):
                 items.append(({**c, "reconnect": True}, 0, None))
             for c in cfgs(two, behs, ("Q",), (None,), (False,), False):
                 items.append(({**c, "reconnect": True}, 1, None))
+        for behs in itertools.product(("ok", "report+ok", "error", "loss"), repeat=2):
+            if behs.count("loss") > 1:
+                continue
+            for c in cfgs(["; café ü ∅", "M117 Grüße"], behs, ("Q", "L"), (None,), (False, True), True):
+                items.append((c, 0, None))
         for loss_mode in ("eof",):
             for behs in (("loss", "ok"), ("ok", "loss")):
                 for c in cfgs(two, behs, ("Q", "L"), (None,), (False,), True):
